@@ -45,10 +45,10 @@ CHECKS = {
         "proptest grammar mutants with recomputed checksums + checksum-repaired byte mutations + exhaustive flip/truncation sweep + raw bytes; "
         "totality oracle (no unwind, bounded post-EOF polls, heap cap); libFuzzer targets in the thorough tier",
         "exploration",
-        "38 classes of malformed-but-checksum-valid frames built from the generator's frame IR (1-3 per stream), byte-level mutants "
+        "42 classes of malformed-but-checksum-valid frames built from the generator's frame IR (1-3 per stream), byte-level mutants "
         "of valid files with CRC-8/CRC-16 repaired, every single-bit flip and truncation of a corpus of small files, and raw bytes, "
         "each through 8 file-level and 5 frame-level entry points (all readers, verify_reader, FrameIterator + Subframe::decode, "
-        "generate_seektable, read_blocks, FlacStreamReader, Frame/FrameHeader::read*), in both build profiles. Oracle: Ok/Err only, "
+        "generate_seektable, read_blocks, FlacStreamReader, Frame/FrameHeader::read*), in both build profiles; every reader is called twice more after its first error. Oracle: Ok/Err only, "
         "bounded reads after end of data, peak heap <= 64 MiB + 64 x input length.",
         "Heap accounting is per thread via the harness allocator; a pure compute loop would only trip the watchdog (exit 2).",
         "DESIGN.md section 4 C04",
@@ -79,7 +79,7 @@ CHECKS = {
     "C07": (
         "model-based histories without seeks over segmented sources + exhaustive source split points for small files",
         "exploration",
-        "Histories over {read(n), fill_buf, consume(k<=avail)} on the four buffered front-ends over sources that fragment reads "
+        "Histories over {read(n), fill_buf, consume(k<=avail), then optionally into_iter() for the rest} on the four buffered front-ends over sources that fragment reads "
         "(1-byte, random chunks), continued to the end and polled 0-3 more times: exactly-once in-order delivery, idempotent end of "
         "stream, byte/sample/channel views consistent; plus every 2-way split point and 1-byte reads of small files through all six "
         "front-ends (exhaustive per file).",
@@ -99,11 +99,12 @@ CHECKS = {
     "C09": (
         "proptest over options x seek-table policy x padding fit x start offset, oracle = independent parser over a recording writer",
         "exploration",
-        "Files are written through a recording writer (optionally after a junk prefix); the independent strict validator then "
+        "Files are written through a recording writer (optionally after a junk prefix, optionally accepting only n bytes per write call); the independent strict validator then "
         "confirms STREAMINFO total/channels/rate/depth/block size/frame-size extrema/MD5, every defined seek point (sample, offset, "
-        "length of a real frame; ascending; placeholders last), that finalize's header rewrite stays inside the metadata region and "
-        "does not change the output length, and that generate_seektable on the finished file reproduces the defined points. Padding "
-        "sizes sweep -3..+2 bytes around the exact seek-table fit; one run writes 932 068 frames with one point per frame.",
+        "length of a real frame; ascending; placeholders last), that every write during finalize lies in the metadata region or appends "
+        "at the end, the frames already out are unchanged and unmoved, and that generate_seektable on the finished file gives the same "
+        "defined points in the same number. Padding sizes sweep -3..+2 bytes around the exact seek-table fit; streams of 66 000-200 000 "
+        "samples with blocks up to 16384; one run writes 932 068 frames with one point per frame. Both build profiles.",
         "Presence of a seek table is not required (the statement does not), only truthfulness of what is written.",
         "DESIGN.md section 4 C09",
     ),
@@ -115,7 +116,7 @@ CHECKS = {
         "in-place results must keep length, first-frame offset and frame bytes and read back as the edited list except the first "
         "padding's size; rebuilt results must be edited blocks + identical frames with the original untouched; refused edits "
         "(second PNG icon, > 2^24-1 byte block, failing callback) must leave the original byte-identical; every result must decode to "
-        "the same PCM.",
+        "the same PCM. A grid (first padding 0-5 bytes below 2^24-1) x (0-10 bytes freed) crosses the 24-bit limit from both sides.",
         "Block lists are read back with the crate's own reader (its fidelity is C11); first-frame offsets and frame bytes come from the independent parser.",
         "DESIGN.md section 4 C10",
     ),
@@ -138,7 +139,8 @@ CHECKS = {
         "via text import) are written: the crate's reader must return equal values, harness/src/refmeta.rs must find exactly the RFC "
         "layout of those values (so a field-width change made on both sides is caught), bytes()/total_size() must equal the bytes "
         "emitted; independently serialised legal blocks the reader accepts must be writable and re-read equal; lists breaking the "
-        "single-instance / ordering / 24-bit size rules must be refused with an error. Both build profiles.",
+        "single-instance / ordering / 24-bit size rules must be refused with an error; padding blocks at and just below 2^24-1 bytes are "
+        "round-tripped from the byte side. Both build profiles.",
         "md5 Some([0;16]) is outside the value domain; total_size() may answer None when payload + header exceeds the 24-bit size type.",
         "DESIGN.md section 4 C11",
     ),
@@ -147,7 +149,8 @@ CHECKS = {
         "exploration",
         "Independently serialised metadata sections with hostile sizes, counts, 32/64-bit fields, type bytes, truncation and missing "
         "last flags, raw bytes, grammar-generated cue texts with line-level mutations for several stream lengths, and PNG/JPEG/GIF "
-        "headers with every byte position swept over 0..=255, through every metadata entry point and - for whatever parses - every "
+        "headers with every byte position swept over 0..=255, every 4-/2-byte window set to 14/9 extreme values, generated PNG chunk / JPEG "
+        "segment / GIF header sequences with hostile lengths, through every metadata entry point and - for whatever parses - every "
         "accessor (duration, decoded_len, channel_mask, cue-sheet tracks/ranges/byte ranges/display/catalog) and re-serialisation. "
         "Oracle: no unwind, bounded reads after end of data, heap <= 64 MiB + 64 x input; both build profiles.",
         "Same accounting limits as C04.",
@@ -159,8 +162,8 @@ CHECKS = {
         "Each generated encode (declared/undeclared total x seek-table policy x padding x extra metadata x front-end x chunking) runs "
         "through a recording writer and stops before finalize (writer leaked, never dropped). For every prefix at write-call "
         "granularity, and at every byte for outputs up to 2 KiB, the decoder must deliver exactly the PCM of the frames that the "
-        "independent frame map places wholly inside the prefix, then end-of-data or an error; the pre-finalize output must be "
-        "append-only and contain every whole block already.",
+        "independent frame map places wholly inside the prefix, then end-of-data or an error (an encoder that rewrites earlier bytes "
+        "before finalize would be judged on the snapshot after each write instead). Both build profiles.",
         "Crash = loss of everything after a prefix of the appended bytes; reordering of writes by the OS is outside the model.",
         "DESIGN.md section 4 C14",
     ),
@@ -212,7 +215,7 @@ CHECKS = {
     "C13": (
         "exhaustive fault enumeration: every underlying write/seek/flush/read call index fails once, permanently or with Interrupted; short-write runs",
         "fault_enumeration",
-        "For each scenario (encode + finalize through every writer front-end with/without seek table and declared/undeclared total, "
+        "For each scenario (encode + finalize through every writer front-end with/without seek table and declared/undeclared total, 1-8 channels, "
         "FlacStreamWriter, write_blocks over generated block lists, update_file in place and rebuilt incl. read faults on the "
         "original) a fault-free run counts the underlying operations, then every index fails in three ways and all writes are "
         "limited to 1/2/7 bytes: no unwind; either an error is reported or the bytes held by the underlying writer equal the "
@@ -226,7 +229,8 @@ CHECKS = {
         "exploration",
         "Cases biased to 2-8 channels and ties (identical / mirrored / silent channels) are encoded by a second harness build (crate "
         "feature rayon) inside dedicated pools of 1, 2, 3, 4, 8, 16 workers, three times each, with and without busy tasks competing "
-        "in the same pool; output bytes or error must equal the serial build's, served by a child process of the plain harness "
+        "in the same pool and with or without another encoder (other window / LPC order, same block length) having run on the same workers "
+        "just before; music-like cases and clean-signal blocks of 4097-16384 samples are mixed in; output bytes or error must equal the serial build's, served by a child process of the plain harness "
         "binary. Interleavings are sampled (pool size x repetition x load), not enumerated: order-dependent reductions, shared-cache "
         "leaks and tie-breaking differences are caught when some pool size exposes them; a race confined to a rare interleaving can "
         "be missed.",
